@@ -20,6 +20,11 @@
 (*   DevLexicalOnly         paths are validated only lexically             *)
 (*   DevFinalComponentOnly  download checks a symbolic link only in the    *)
 (*                          final component of the requested path          *)
+(*   DevNoLinkChecks        the second extractor of the pinned tree        *)
+(*                          (health.extractTarWithFallback): only          *)
+(*                          Clean(Join(dest, name)) is tested for          *)
+(*                          containment, symbolic links are created with   *)
+(*                          any target, hard links are skipped             *)
 (***************************************************************************)
 EXTENDS FsCore, TLC, Json
 
@@ -42,7 +47,7 @@ CONSTANTS Dev,         \* enabled deviations
           Ops,         \* subset of {"upload","uploaddir","download","list","stat","chmod","delete","rdelete"}
           MaxOps
 
-DevNames == {"DevLexicalOnly", "DevFinalComponentOnly"}
+DevNames == {"DevLexicalOnly", "DevFinalComponentOnly", "DevNoLinkChecks"}
 ASSUME Dev \subseteq DevNames /\ Part \in {"X", "A"}
 
 VARIABLES fs, data, nino,   \* file system (FsCore), file contents per inode, next free inode
@@ -109,10 +114,14 @@ ResolveInDest(f, tp) == IF tp = Dest THEN [ok |-> TRUE, p |-> Dest]
                         ELSE RID(f, Dest, SubSeq(tp, Len(Dest) + 1, Len(tp)))
 
 \* where an entry is extracted: lexical target path (pinned tree) or its physical location (repaired)
+NoChecks == "DevNoLinkChecks" \in Dev
+Lexical  == "DevLexicalOnly" \in Dev \/ NoChecks
+\* pinned health extractor: filepath.Join(dest, name) (cleaned) must have the destination as prefix
+SanJoin(name) == LET tp == CleanAbs(Dest \o name) IN [ok |-> Within(tp), p |-> tp]
 Locate(f, name) ==
-  LET s == San(name) IN
+  LET s == IF NoChecks THEN SanJoin(name) ELSE San(name) IN
   IF ~s.ok THEN s
-  ELSE IF "DevLexicalOnly" \in Dev THEN s ELSE ResolveInDest(f, s.p)
+  ELSE IF Lexical THEN s ELSE ResolveInDest(f, s.p)
 
 ExDir(f, d, ni, tp) == LET m == MkdirAll(f, tp) IN [ok |-> m.ok, f |-> m.f, d |-> d, ni |-> ni]
 
@@ -121,17 +130,17 @@ ExFile(f, d, ni, tp) ==
   IF ~m.ok THEN Fail(m.f, d, ni)
   ELSE LET l == Lstat(m.f, tp)
            \* repaired: a symbolic link in the final component is replaced, not written through
-           f1 == IF "DevLexicalOnly" \notin Dev /\ l.st = "ok" /\ Kind(m.f, l.p) = "link"
+           f1 == IF ~Lexical /\ l.st = "ok" /\ Kind(m.f, l.p) = "link"
                    THEN SysRemove(m.f, tp).f ELSE m.f
            w == OpenWrite(f1, d, ni, tp, "n") IN
        [ok |-> w.ok, f |-> w.f, d |-> w.d, ni |-> w.ni]
 
 ExSym(f, d, ni, tp, t) ==
-  IF ~SymlinkOK(tp, t) THEN Fail(f, d, ni)
+  IF ~NoChecks /\ ~SymlinkOK(tp, t) THEN Fail(f, d, ni)
   ELSE LET m == MkdirAll(f, Dirname(tp)) IN
        IF ~m.ok THEN Fail(m.f, d, ni)
        ELSE LET r == SysRemove(m.f, tp)                       \* result ignored by the code
-                s == SysSymlink(r.f, FALSE, TComps(t), tp) IN
+                s == SysSymlink(r.f, TAbs(t), TComps(t), tp) IN
             [ok |-> s.ok, f |-> s.f, d |-> d, ni |-> ni]
 
 ExHard(f, d, ni, tp, lname) ==
@@ -149,7 +158,8 @@ ExtractEntry(f, d, ni, e) ==
   ELSE CASE e.kind = "dir"  -> ExDir(f, d, ni, loc.p)
          [] e.kind = "file" -> ExFile(f, d, ni, loc.p)
          [] e.kind = "sym"  -> ExSym(f, d, ni, loc.p, e.target)
-         [] e.kind = "hard" -> ExHard(f, d, ni, loc.p, e.target)
+         [] e.kind = "hard" -> IF NoChecks THEN Good(f, d, ni)       \* entry type not handled: skipped
+                               ELSE ExHard(f, d, ni, loc.p, e.target)
 
 XInit ==
   /\ fs = XWorld /\ data = XData /\ nino = 4
@@ -159,7 +169,8 @@ XInit ==
 \* UntarDirectory up to its loop: MkdirAll(destDir) (the gzip/tar readers have no file system effect)
 Begin ==
   /\ st = "new"
-  /\ LET m == MkdirAll(fs, Dest) IN
+  /\ LET m == IF NoChecks THEN [ok |-> TRUE, f |-> fs]      \* (that extractor expects an existing directory)
+              ELSE MkdirAll(fs, Dest) IN
      /\ fs' = m.f
      /\ st' = IF m.ok THEN "open" ELSE "err"
      /\ last' = [act |-> "Begin", ok |-> m.ok]
@@ -181,11 +192,12 @@ XNext == Begin \/ \E e \in Entries : Extract(e)
 \* C27: everything outside the destination is as it was: same nodes, same contents, and no path inside the
 \* destination is a hard link to a file outside
 Outside(f) == {q \in DOMAIN f : ~Within(q)}
-NoEscape ==
-  /\ Outside(fs) = Outside(XWorld)
-  /\ \A q \in Outside(fs) : fs[q] = XWorld[q]
-  /\ \A i \in DOMAIN XData : data[i] = XData[i]
-  /\ \A q \in DOMAIN fs : Within(q) /\ fs[q].k = "file" => fs[q].i \notin DOMAIN XData
+NoEscapeOf(f, d) ==
+  /\ Outside(f) = Outside(XWorld)
+  /\ \A q \in Outside(f) : f[q] = XWorld[q]
+  /\ \A i \in DOMAIN XData : d[i] = XData[i]
+  /\ \A q \in DOMAIN f : Within(q) /\ f[q].k = "file" => f[q].i \notin DOMAIN XData
+NoEscape == NoEscapeOf(fs, data)
 
 \* sanity of the model: keys are physical paths, parents are directories, inodes have contents
 WellFormed ==
@@ -193,7 +205,7 @@ WellFormed ==
   /\ \A q \in DOMAIN fs : fs[q].k = "file" => fs[q].i \in DOMAIN data
 
 XEmitEdge ==
-  Emit => PrintT("EDGE " \o ToJson([arch |-> hist', a |-> last', st |-> st',
+  Emit => PrintT("EDGE " \o ToJson([arch |-> hist', a |-> last', st |-> st', esc |-> ~NoEscapeOf(fs', data'),
                                      t |-> Nodes(fs', data')]))
 
 (***************************************************************************)
